@@ -470,6 +470,51 @@ func randomSystem(rng *rand.Rand, maxComps, maxMsgs int) SysCfg {
 	return cfg
 }
 
+// collisionSystem draws event-driven components that all act on one coarse time grid
+// (wake-ups in whole cycles, one connection per pair on the same period), so that many
+// same-time, same-class events are queued together and new ones are scheduled for
+// instants at which older ones are still pending — the situation in which sequence
+// numbers (schedule order) decide the handling order.
+func collisionSystem(rng *rand.Rand) SysCfg {
+	var cfg SysCfg
+	cfg.Conns = []ConnCfg{{Name: "K0", Period: 1000}, {Name: "K1", Period: 1000}}
+	n := 3 + rng.Intn(3)
+	var names [2][]string
+	for i := 0; i < n; i++ {
+		cc := CompCfg{Name: fmt.Sprintf("C%d", i), Kind: "ed", Period: 1000, Drain: true}
+		for k := 0; k < 2; k++ {
+			pn := fmt.Sprintf("C%d.P%d", i, k)
+			cc.Ports = append(cc.Ports, PortCfg{Name: pn, In: 2, Out: 2, Conn: cfg.Conns[k].Name})
+			names[k] = append(names[k], pn)
+		}
+		cfg.Comps = append(cfg.Comps, cc)
+	}
+	for i := range cfg.Comps {
+		cc := &cfg.Comps[i]
+		for a := 0; a < 6+rng.Intn(6); a++ {
+			var acts []Action
+			for k := 0; k < 2; k++ {
+				if rng.Intn(2) == 0 {
+					dst := names[k][rng.Intn(n)]
+					if dst != cc.Ports[k].Name {
+						acts = append(acts, Action{Op: "send", Port: cc.Ports[k].Name, Dst: dst})
+					}
+				}
+			}
+			acts = append(acts, Action{Op: "wake", D: 1000 * (1 + rng.Intn(3))})
+			if rng.Intn(2) == 0 {
+				acts = append(acts, Action{Op: "wake", D: 0})
+			}
+			cc.Script = append(cc.Script, acts)
+		}
+		cfg.Init = append(cfg.Init, struct {
+			Comp string `json:"comp"`
+			At   int    `json:"at"`
+		}{cc.Name, 1000 * rng.Intn(2)})
+	}
+	return cfg
+}
+
 // connStress draws one connection with many ports, deep scripts that keep refilling the
 // outgoing buffers, and receivers that stall for long periods (C10).
 func connStress(rng *rand.Rand, maxMsgs int) SysCfg {
